@@ -3,6 +3,8 @@ package main
 // World: loaded packages, Go-type -> SMT-sort mapping, datatype declarations.
 
 import (
+	"path/filepath"
+	"os"
 	"fmt"
 	"go/types"
 	"sort"
@@ -38,6 +40,9 @@ type World struct {
 	recvInv   map[string][]*Clause
 	commonPost map[string][]*Clause
 	typeInv   map[string][]*Clause
+	midNames  map[string]bool // obligations solved with the middle time limit (known findings, quick tier)
+	midTmo    int
+	stopAfter int // quick tier: stop solving after this many ledger obligations have failed
 	knownNames map[string]bool // every obligation name recorded in the ledgers (proved or undecided); nil: not loaded
 	replaySolver string
 }
@@ -51,19 +56,79 @@ func shortPkg(path string) string {
 	return path[i+1:]
 }
 
+// droppedSpecFiles: contract files that do not type-check against the code as it is now (set by
+// loadWorld); their clauses are not loaded, so that what they proved shows up as lost obligations.
+var droppedSpecFiles = map[string]string{}
+
 func loadWorld(repo string) (*World, error) {
-	cfg := &packages.Config{Mode: packages.LoadAllSyntax, Dir: repo, BuildFlags: []string{"-tags=verif"}}
-	pkgs, err := packages.Load(cfg, "./lexer", "./parser", "./transpiler", "./converters/bash", "./converters/batch", ".")
+	load := func(overlay map[string][]byte) ([]*packages.Package, []packages.Error, error) {
+		cfg := &packages.Config{Mode: packages.LoadAllSyntax, Dir: repo, BuildFlags: []string{"-tags=verif"}, Overlay: overlay}
+		pkgs, err := packages.Load(cfg, "./lexer", "./parser", "./transpiler", "./converters/bash", "./converters/batch", ".")
+		if err != nil {
+			return nil, nil, err
+		}
+		var errs []packages.Error
+		packages.Visit(pkgs, nil, func(p *packages.Package) {
+			errs = append(errs, p.Errors...)
+		})
+		return pkgs, errs, nil
+	}
+	pkgs, errs, err := load(nil)
 	if err != nil {
 		return nil, err
 	}
-	nerr := 0
-	packages.Visit(pkgs, nil, func(p *packages.Package) {
-		for _, e := range p.Errors {
-			fmt.Println("LOAD ERROR:", e)
-			nerr++
+	if len(errs) > 0 {
+		// Do the errors all lie in contract files (the code itself builds, the spec functions written
+		// against its old shape do not)?  Then load again with those files reduced to their package
+		// clause: the rest of the repository can still be checked, and every obligation the dropped
+		// contracts had proved is reported as no longer generated.
+		overlay := map[string][]byte{}
+		onlySpec := true
+		for _, e := range errs {
+			file := e.Pos
+			if i := strings.Index(file, ":"); i >= 0 {
+				file = file[:i]
+			}
+			if !strings.HasSuffix(file, "_verif.go") {
+				onlySpec = false
+				break
+			}
+			if !filepath.IsAbs(file) {
+				file = filepath.Join(repo, file)
+			}
+			if _, done := overlay[file]; done {
+				continue
+			}
+			data, rerr := os.ReadFile(file)
+			if rerr != nil {
+				onlySpec = false
+				break
+			}
+			pkgName := "main"
+			for _, ln := range strings.Split(string(data), "\n") {
+				if strings.HasPrefix(ln, "package ") {
+					pkgName = strings.TrimSpace(strings.TrimPrefix(ln, "package "))
+					break
+				}
+			}
+			overlay[file] = []byte("//go:build verif\n\npackage " + pkgName + "\n")
+			droppedSpecFiles[file] = e.Msg
 		}
-	})
+		if onlySpec && len(overlay) > 0 {
+			for f, msg := range droppedSpecFiles {
+				fmt.Printf("CONTRACTS-DO-NOT-COMPILE %s: %s (its clauses are dropped for this run)\n", shortFile(f), msg)
+			}
+			pkgs, errs, err = load(overlay)
+			if err != nil {
+				return nil, err
+			}
+		}
+	}
+	nerr := 0
+	for _, e := range errs {
+		fmt.Println("LOAD ERROR:", e)
+		nerr++
+	}
 	if nerr > 0 {
 		return nil, fmt.Errorf("%d package load errors", nerr)
 	}
